@@ -229,6 +229,21 @@ CHECKS["C14"] = dict(
               "pull-count traces of real lazy pipelines",
 )
 
+CHECKS["C15"] = dict(
+    text="MC_Codec runs the positional encode loop as a machine and checks its loop invariant, digit range, round trip "
+         "and absence of a leading zero for every n <= 3000 in 5 bases; VyCodec derives the compression alphabets from "
+         "the extracted code page by the documented exclusion. Every call of to_base/from_base and of the number, "
+         "string and dictionary compression elements in the tier's domain is logged; compressed literals are run as "
+         "programs; TLC checks the round trip, the digit range, the length bound and that the literal text denotes the "
+         "value (Horner over unbounded integers).",
+    note="Trusted: BigNat (checked against native arithmetic), the run of the literal through the real transpiler. "
+         "Transcribed-function form: the quantifier is over inputs. String compression of strings over [a-z ] <= 2/3 "
+         "exhaustively.",
+    ref="DESIGN.md section 6 C15",
+    technique="TLA+ spec (VyCodec, MC_Codec encode machine) model-checked by TLC + TLC evaluation of Horner round trips "
+              "on every logged codec call",
+)
+
 NOT_APPLICABLE = {}
 
 DEFAULT_NA = ("check under construction in this round; it will be claimed when its TLA+ module and "
